@@ -7,7 +7,7 @@ Open Scope N_scope.
 (* ---- the quoted text of a component contains none of the characters in L ------------- *)
 Definition excl (p : position) (L : list N) : bool :=
   forallb (fun b => implb (ok_at p b) (not_in L b)) (range 128) &&
-  not_in L 37 && forallb (fun d => not_in L (hexdigit_upper d)) (range 16).
+  not_in L 37 && forallb (not_in L) hexdigits.
 
 Lemma excl_user : excl PUser [58; 64; 47; 63; 35] = true.  Proof. vm_compute. reflexivity. Qed.
 Lemma excl_path : excl PPath [47; 63; 35] = true.          Proof. vm_compute. reflexivity. Qed.
@@ -51,7 +51,7 @@ Proof.
   unfold qf, quote_full, quote_bytes.
   apply (quote_forall (ok_at (position_of c)) (qmap T c) (tables_ok_map T c TOK) (not_in L)).
   - exact X2.
-  - intros d Hd. apply (forallb_range 16 _ X3 d Hd).
+  - exact X3.
   - intros b Hb. pose proof (ok_at_ascii _ _ Hb) as A. unfold is_ascii in A. apply N.ltb_lt in A.
     pose proof (forallb_range 128 _ X1 b A) as I. cbn beta in I. rewrite Hb in I. exact I.
   - apply utf8_enc_bytes. exact S.
@@ -224,18 +224,16 @@ Proof.
 Qed.
 
 (* ---- authority ------------------------------------------------------------------------------------ *)
-Variable ht : text.                     (* the host as rendered: reg-name / IPv4 / IDNA-encoded name *)
+Variable ht : text.                     (* the host as rendered: reg-name / IPv4 / IDNA-encoded name / [IPv6] *)
 Hypothesis ht_ne : ht <> [].
-Hypothesis ht_chars : forallb (not_in [58; 64; 47; 63; 35]) ht = true.
-Variable b4 : bool.
-Hypothesis ht_inet4 : o_inet4 O ht = MOk b4.
+Hypothesis ht_chars : forallb (not_in [64; 47; 63; 35]) ht = true.
 
 (* the port as rendered and what int() makes of it *)
 Variables (ptxt : text) (pres : option Z).
 Hypothesis port_ok :
   (ptxt = [] /\ pres = None) \/
   (exists ds p, ptxt = 58 :: ds /\ pres = Some p /\ py_int ds = Some p /\ all_ascii ds = true /\
-                forallb (not_in [64; 47; 63; 35; 93]) ds = true).
+                forallb (not_in [64; 47; 63; 35; 93]) ds = true /\ forallb is_digit ds = true).
 
 Definition userinfo (user pw : text) : text :=
   if nonempty user || nonempty pw
@@ -245,7 +243,7 @@ Definition authority (user pw : text) : text := userinfo user pw ++ ht ++ ptxt.
 
 Lemma ptxt_no c : memN c [64; 47; 63; 35] = true -> memN c ptxt = false.
 Proof.
-  intro M. destruct port_ok as [[-> _]|[ds [p [-> [_ [_ [_ D]]]]]]]; [reflexivity|].
+  intro M. destruct port_ok as [[-> _]|[ds [p [-> [_ [_ [_ [D _]]]]]]]]; [reflexivity|].
   cbn [memN]. rewrite (forallb_not_in_mem [64; 47; 63; 35; 93] ds c D).
   - rewrite orb_false_r. cbn [memN] in M. repeat rewrite orb_false_r in M.
     destruct (c =? 58) eqn:E; [|reflexivity]. apply N.eqb_eq in E. subst c. discriminate.
@@ -253,7 +251,7 @@ Proof.
     repeat (apply orb_true_iff in M as [M|M]); rewrite M; repeat rewrite orb_true_r; reflexivity.
 Qed.
 
-Lemma ht_no c : memN c [58; 64; 47; 63; 35] = true -> memN c ht = false.
+Lemma ht_no c : memN c [64; 47; 63; 35] = true -> memN c ht = false.
 Proof. intro M. apply (forallb_not_in_mem _ _ _ ht_chars M). Qed.
 
 Lemma quser_no c x : scalar_nfc x -> memN c [58; 64; 47; 63; 35] = true -> memN c (qf CUser x) = false.
@@ -289,10 +287,10 @@ Proof.
   assert (M5 : memN x [58; 64; 47; 63; 35] = true).
   { cbn [memN] in *. repeat rewrite orb_false_r in *.
     repeat (apply orb_true_iff in M as [M|M]); rewrite M; repeat rewrite orb_true_r; reflexivity. }
-  rewrite (ht_no x M5) in Hx.
   assert (M4 : memN x [64; 47; 63; 35] = true).
   { cbn [memN] in *. repeat rewrite orb_false_r in *.
     repeat (apply orb_true_iff in M as [M|M]); rewrite M; repeat rewrite orb_true_r; reflexivity. }
+  rewrite (ht_no x M4) in Hx.
   rewrite (ptxt_no x M4) in Hx. discriminate.
 Qed.
 
@@ -300,15 +298,16 @@ Qed.
 Definition pu_user_txt (user pw : text) : text := if nonempty user || nonempty pw then qf CUser user else [].
 Definition pu_pass_txt (pw : text) : text := if nonempty pw then qf CUser pw else [].
 
-Lemma hostport_parse : split_hostport O (ht ++ ptxt) = MOk (ht, pres).
+Lemma hostport_parse_plain h :
+  h <> [] -> memN 58 h = false -> split_hostport O (h ++ ptxt) = MOk (h, pres).
 Proof.
-  unfold split_hostport.
-  destruct (ht ++ ptxt) as [|x y] eqn:E.
+  intros HNE H58. unfold split_hostport.
+  destruct (h ++ ptxt) as [|x y] eqn:E.
   { apply app_eq_nil in E as [E1 _]. contradiction. }
   rewrite <- E. clear E x y.
-  destruct port_ok as [[-> ->]|[ds [p [-> [-> [PI [PA PD]]]]]]].
-  - rewrite app_nil_r. rewrite (partition_none 58 ht (ht_no 58 eq_refl)). reflexivity.
-  - rewrite (partition_app 58 ht ds (ht_no 58 eq_refl)).
+  destruct port_ok as [[-> ->]|[ds [p [-> [-> [PI [PA [PD _]]]]]]]].
+  - rewrite app_nil_r. rewrite (partition_none 58 h H58). reflexivity.
+  - rewrite (partition_app 58 h ds H58).
     rewrite (forallb_not_in_mem [64; 47; 63; 35; 93] ds 93 PD eq_refl), andb_false_r.
     rewrite PA, PI. reflexivity.
 Qed.
@@ -318,6 +317,50 @@ Lemma parse_host_plain h b :
 Proof.
   intros NE M I4. unfold parse_host. destruct h as [|h0 hr]; [contradiction|].
   rewrite M. cbn [andb]. rewrite I4. reflexivity.
+Qed.
+
+Lemma memN_split c h : memN c h = true -> exists a b, h = a ++ c :: b /\ memN c a = false.
+Proof.
+  induction h as [|x r IH]; intro H; [discriminate|].
+  cbn [memN] in H. destruct (c =? x) eqn:E.
+  - apply N.eqb_eq in E. subst x. exists [], r. split; reflexivity.
+  - cbn [orb] in H. destruct (IH H) as [a [b [-> Ha]]]. exists (x :: a), b. split; [reflexivity|].
+    cbn [memN]. rewrite E, Ha. reflexivity.
+Qed.
+
+(* '[' h ']' with a ':' inside h: the bracket repair of parse_url puts the literal together again *)
+Lemma hostport_parse_v6 h :
+  memN 58 h = true -> memN 93 h = false ->
+  split_hostport O ((91 :: h ++ [93]) ++ ptxt) = MOk (91 :: h ++ [93], pres).
+Proof.
+  intros H58 H93. destruct (memN_split 58 h H58) as [a [b [-> Ha]]].
+  rewrite memN_app in H93. apply orb_false_iff in H93 as [H93a H93b].
+  cbn [memN] in H93b. apply orb_false_iff in H93b as [_ H93b].
+  unfold split_hostport. cbn [app].
+  replace (91 :: ((a ++ 58 :: b) ++ [93]) ++ ptxt) with ((91 :: a) ++ 58 :: (b ++ 93 :: ptxt))
+    by (cbn [app]; rewrite <- !app_assoc; reflexivity).
+  assert (A58 : memN 58 (91 :: a) = false) by (cbn [memN]; rewrite Ha; reflexivity).
+  rewrite (partition_app 58 (91 :: a) _ A58). cbn [app].
+  assert (M93 : memN 93 (b ++ 93 :: ptxt) = true).
+  { rewrite memN_app. cbn [memN]. rewrite N.eqb_refl, orb_true_r. reflexivity. }
+  rewrite N.eqb_refl, M93. cbn [andb]. rewrite (partition_app 93 b ptxt H93b).
+  destruct port_ok as [[-> ->]|[ds [p [-> [-> [PI [PA [PD _]]]]]]]].
+  - change (all_ascii []) with true. change (py_int []) with (@None Z). cbn iota beta.
+    cbn [app]. rewrite <- app_assoc. reflexivity.
+  - rewrite PA, PI. cbn [app]. rewrite <- app_assoc. reflexivity.
+Qed.
+
+Lemma last_is_snoc c x : last_is c (x ++ [c]) = true.
+Proof. unfold last_is. rewrite rev_app_distr. cbn [rev app]. apply N.eqb_refl. Qed.
+
+Lemma parse_host_v6 h :
+  memN 58 h = true -> o_inet6 O h = MOk V6Ok -> parse_host O (91 :: h ++ [93]) = MOk (6, h).
+Proof.
+  intros H58 I6. unfold parse_host.
+  assert (M : memN 58 (91 :: h ++ [93]) = true).
+  { cbn [memN]. rewrite memN_app, H58. reflexivity. }
+  rewrite M, N.eqb_refl. change (91 :: h ++ [93]) with ([91] ++ h ++ [93]) at 1.
+  rewrite app_assoc, last_is_snoc. cbn [andb tl]. rewrite removelast_last, I6. reflexivity.
 Qed.
 
 Lemma authority_ne user pw : authority user pw <> [].
@@ -348,6 +391,11 @@ Proof.
     apply orb_false_iff in U as [_ U2]. rewrite U2. reflexivity.
 Qed.
 
+(* what parse_url makes of the host and port text: family and host as parse_host returns them *)
+Variables (hp : text) (fam' : N).
+Hypothesis host_parse :
+  exists hraw, split_hostport O (ht ++ ptxt) = MOk (hraw, pres) /\ parse_host O hraw = MOk (fam', hp).
+
 Lemma parse_url_full scheme user pw pathtxt qs fr :
   scheme <> [] -> forallb (not_in [58; 47; 63; 35]) scheme = true ->
   scalar_nfc user -> scalar_nfc pw ->
@@ -355,18 +403,18 @@ Lemma parse_url_full scheme user pw pathtxt qs fr :
   forallb (not_in [35]) qs = true ->
   parse_url O (scheme ++ [58] ++ [47; 47] ++ authority user pw ++ pathtxt ++ qpart qs ++ fpart fr)
   = MOk (mkParsed (Some scheme) true (pu_user_txt user pw) (pu_pass_txt pw)
-                  (if b4 then 4 else 0) ht pres pathtxt (some_if qs) (some_if fr)).
+                  fam' hp pres pathtxt (some_if qs) (some_if fr)).
 Proof.
   intros NE Hs Su Sp Hp0 Hp Hq. unfold parse_url.
   rewrite (url_re_shape scheme (authority user pw) pathtxt qs fr NE Hs (authority_chars user pw Su Sp) Hp0 Hp Hq).
   cbn [g_authority g_scheme g_path g_query g_fragment].
-  rewrite (split_userinfo_authority user pw Su Sp). rewrite hostport_parse. cbn [mbind].
-  rewrite (parse_host_plain ht b4 ht_ne (ht_no 58 eq_refl) ht_inet4). reflexivity.
+  rewrite (split_userinfo_authority user pw Su Sp).
+  destruct host_parse as [hraw [HSP HPH]]. rewrite HSP. cbn [mbind]. rewrite HPH. reflexivity.
 Qed.
 
 (* ---- URL(rendered text) ------------------------------------------------------------------------------- *)
 Variable h2 : text.                     (* what the host attribute reads after parsing *)
-Hypothesis ht_decode : if all_ascii ht then o_idna_dec O ht = MOk h2 else h2 = ht.
+Hypothesis host_decode : decode_host O hp = MOk h2.
 Hypothesis nfc_nil : nfc [] = [].
 
 Lemma decode_host_plain h r :
@@ -392,7 +440,7 @@ Theorem url_init_rendered scheme user pw rest q frag :
   scheme <> [] -> forallb (not_in [58; 47; 63; 35]) scheme = true ->
   scalar_nfc user -> scalar_nfc pw -> Forall scalar_nfc rest -> Forall pair_ok q -> scalar_nfc frag ->
   url_init T O (rendered scheme user pw ([] :: rest) q frag)
-  = MOk (mkU scheme true (nfc user) (nfc pw) (if b4 then 4 else 0) h2 pres
+  = MOk (mkU scheme true (nfc user) (nfc pw) fam' h2 pres
              (map nfc ([] :: rest)) (map nfc_pair q) (nfc frag)).
 Proof.
   intros NE Hs Su Sp Fp Fq Sf. unfold url_init, rendered.
@@ -410,7 +458,7 @@ Proof.
   destruct scheme as [|s0 sr]; [contradiction|].
   cbn [app] in PU |- *. rewrite PU. cbn [mbind pu_host pu_scheme pu_sep pu_user pu_pass pu_family pu_port
                                             pu_path pu_query pu_fragment opt_text].
-  rewrite (decode_host_plain ht h2 ht_ne ht_decode). cbn [mbind].
+  rewrite host_decode. cbn [mbind].
   rewrite !opt_text_some_if.
   assert (NEp : ([] :: rest : list text) <> []) by discriminate.
   rewrite (path_back _ NEp Fpath), (parse_qsl_join q Fq), (unq_qf CFrag frag Sf).
@@ -433,6 +481,17 @@ Proof.
   intros u NE F6 M58 ENC PT. unfold get_authority. cbn [u u_user u_pass u_host u_family].
   destruct host as [|h0 hr]; [contradiction|].
   rewrite F6, M58. cbn [orb]. rewrite ENC. cbn [mbind]. fold u. rewrite PT. reflexivity.
+Qed.
+
+Lemma get_authority_v6 scheme sep user pw fam host port path q frag :
+  let u := mkU scheme sep user pw fam host port path q frag in
+  host <> [] -> (fam =? 6) || memN 58 host = true -> ht = [91] ++ host ++ [93] ->
+  port_text T u = ptxt ->
+  get_authority T O true u = MOk (authority user pw).
+Proof.
+  intros u NE F6 EH PT. unfold get_authority. cbn [u u_user u_pass u_host u_family].
+  destruct host as [|h0 hr]; [contradiction|].
+  rewrite F6. cbn [mbind]. fold u. rewrite PT. unfold authority, userinfo. rewrite EH. reflexivity.
 Qed.
 
 Lemma nonempty_app_l a b : nonempty a = true -> nonempty (a ++ b) = true.
@@ -458,23 +517,52 @@ Proof.
   - cbn [map]. rewrite join_nonempty_head, Q0. cbn [app nonempty negb]. reflexivity.
 Qed.
 
+(* ---- rendering the re-parsed URL gives the same text (needs: NFC idempotent, only the empty text
+   normalises to the empty text) --------------------------------------------------------------------------- *)
+Section Again.
+Hypothesis nfc_idem : forall x, nfc (nfc x) = nfc x.
+Hypothesis nfc_nonnil : forall x, nfc x = [] -> x = [].
+
+Lemma qf_nfc c x : qf c (nfc x) = qf c x.
+Proof. unfold qf, quote_full. fold nfc. rewrite nfc_idem. reflexivity. Qed.
+
+Lemma nonempty_nfc x : nonempty (nfc x) = nonempty x.
+Proof.
+  destruct x as [|a r]; [rewrite nfc_nil; reflexivity|].
+  destruct (nfc (a :: r)) eqn:E; [apply nfc_nonnil in E; discriminate|reflexivity].
+Qed.
+
+Lemma rp_nfc kv : rp (nfc_pair kv) = rp kv.
+Proof. destruct kv as [k [v|]]; cbn [nfc_pair rp fst snd option_map]; rewrite ?qf_nfc; reflexivity. Qed.
+
+Lemma rendered_nfc scheme user pw rest q frag :
+  rendered scheme (nfc user) (nfc pw) ([] :: map nfc rest) (map nfc_pair q) (nfc frag)
+  = rendered scheme user pw ([] :: rest) q frag.
+Proof.
+  unfold rendered, authority, userinfo. rewrite !nonempty_nfc, !qf_nfc.
+  cbn [map]. rewrite !map_map.
+  rewrite (map_ext (fun x => qf CPath (nfc x)) (qf CPath) (qf_nfc CPath)).
+  rewrite (map_ext (fun x => rp (nfc_pair x)) rp rp_nfc). reflexivity.
+Qed.
+End Again.
+
 End Round.
 
 (* ---- ports 1..65535: str() then int() --------------------------------------------------------------- *)
 Definition port_check (n : N) : bool :=
   let ds := str_of_N n in
   match py_int ds with Some z => Z.eqb z (Z.of_N n) | None => false end &&
-  all_ascii ds && forallb (not_in [64; 47; 63; 35; 93]) ds.
+  all_ascii ds && forallb (not_in [64; 47; 63; 35; 93]) ds && forallb is_digit ds.
 
 Lemma port_check_all : forallb port_check (range 65536) = true.
 Proof. vm_compute. reflexivity. Qed.
 
 Lemma port_digits n : n < 65536 ->
   py_int (str_of_N n) = Some (Z.of_N n) /\ all_ascii (str_of_N n) = true /\
-  forallb (not_in [64; 47; 63; 35; 93]) (str_of_N n) = true.
+  forallb (not_in [64; 47; 63; 35; 93]) (str_of_N n) = true /\ forallb is_digit (str_of_N n) = true.
 Proof.
   intro H. pose proof (forallb_range 65536 _ port_check_all n H) as C. unfold port_check in C.
-  apply andb_true_iff in C as [C C3]. apply andb_true_iff in C as [C1 C2].
+  apply andb_true_iff in C as [C C4]. apply andb_true_iff in C as [C C3]. apply andb_true_iff in C as [C1 C2].
   destruct (py_int (str_of_N n)) as [z|]; [|discriminate]. apply Z.eqb_eq in C1. subst z. auto.
 Qed.
 
@@ -486,17 +574,55 @@ Lemma port_text_ok T u :
   match u_port u with Some p => (0 <= p < 65536)%Z | None => True end ->
   (port_text T u = [] /\ port_back T u = None) \/
   (exists ds p, port_text T u = 58 :: ds /\ port_back T u = Some p /\ py_int ds = Some p /\
-                all_ascii ds = true /\ forallb (not_in [64; 47; 63; 35; 93]) ds = true).
+                all_ascii ds = true /\ forallb (not_in [64; 47; 63; 35; 93]) ds = true /\
+                forallb is_digit ds = true).
 Proof.
   intro V. unfold port_back, port_text. destruct (u_port u) as [p|]; [|left; auto].
   destruct (negb (p =? 0)%Z && negb (optZ_eqb (Some p) (default_port T u))); [|left; auto].
   right. exists (str_of_Z p), p.
   assert (E : str_of_Z p = str_of_N (Z.to_N p)) by (destruct p; try reflexivity; lia).
-  destruct (port_digits (Z.to_N p)) as [P1 [P2 P3]]; [lia|].
-  rewrite E. rewrite Z2N.id in P1 by lia. auto.
+  destruct (port_digits (Z.to_N p)) as [P1 [P2 [P3 P4]]]; [lia|].
+  rewrite E. rewrite Z2N.id in P1 by lia. repeat split; assumption.
 Qed.
 
 (* ---- the round-trip theorem ---------------------------------------------------------------------------- *)
+(* generic in how the host is written (ht) and read back (hp, fam', h2) *)
+Theorem roundtrip_gen T O :
+  tables_ok T = true ->
+  forall scheme sep user pw fam host port rest q frag ht hp fam' h2,
+  let nfc := o_nfc O in
+  let u := mkU scheme sep user pw fam host port ([] :: rest) q frag in
+  scheme <> [] -> forallb (not_in [58; 47; 63; 35]) scheme = true ->
+  nfc [] = [] ->
+  all_scalar (nfc user) = true -> all_scalar (nfc pw) = true -> all_scalar (nfc frag) = true ->
+  Forall (fun s => all_scalar (nfc s) = true) rest ->
+  Forall (pair_ok O) q ->
+  ht <> [] -> forallb (not_in [64; 47; 63; 35]) ht = true ->
+  get_authority T O true u = MOk (authority T O ht (port_text T u) user pw) ->
+  (exists hraw, split_hostport O (ht ++ port_text T u) = MOk (hraw, port_back T u) /\
+                parse_host O hraw = MOk (fam', hp)) ->
+  decode_host O hp = MOk h2 ->
+  match port with Some p => (0 <= p < 65536)%Z | None => True end ->
+  to_text T O true u = MOk (rendered T O ht (port_text T u) scheme user pw ([] :: rest) q frag) /\
+  url_init T O (rendered T O ht (port_text T u) scheme user pw ([] :: rest) q frag)
+  = MOk (mkU scheme true (nfc user) (nfc pw) fam' h2 (port_back T u)
+             (map nfc ([] :: rest)) (map (nfc_pair O) q) (nfc frag)).
+Proof.
+  intros TOK scheme sep user pw fam host port rest q frag ht hp fam' h2 nfc u
+         NE Hs N0 Su Sp Sf Fr Fq HTNE HTC GA HP DEC PV.
+  pose proof (port_text_ok T u PV) as PO. split.
+  - apply (to_text_rendered T O ht HTNE (port_text T u) scheme sep user pw fam host port rest q frag NE N0 GA).
+  - apply (url_init_rendered T O TOK ht HTNE HTC (port_text T u) (port_back T u) PO hp fam' HP h2 DEC N0
+             scheme user pw rest q frag NE Hs Su Sp Fr Fq Sf).
+Qed.
+
+Lemma weaken_host_chars ht :
+  forallb (not_in [58; 64; 47; 63; 35]) ht = true -> forallb (not_in [64; 47; 63; 35]) ht = true.
+Proof.
+  apply forallb_weaken. intros c Hc. cbn [memN] in *. rewrite Hc. apply orb_true_r.
+Qed.
+
+(* name / IPv4 / IDN hosts *)
 Theorem roundtrip T O :
   tables_ok T = true ->
   forall scheme sep user pw fam host port rest q frag ht b4 h2,
@@ -524,13 +650,181 @@ Proof.
   intros TOK scheme sep user pw fam host port rest q frag ht b4 h2 nfc u
          NE Hs N0 Su Sp Sf Fr Fq HNE F6 M58 ENC HTNE HTC I4 DEC PV.
   pose proof (port_text_ok T u PV) as PO.
-  pose proof (get_authority_plain T O ht (port_text T u) scheme sep user pw fam host port ([] :: rest) q frag
-                HNE F6 M58 ENC eq_refl) as GA.
-  exists (rendered T O ht (port_text T u) scheme user pw ([] :: rest) q frag).
-  eexists. split.
-  - apply (to_text_rendered T O ht HTNE (port_text T u) scheme sep user pw fam host port rest q frag NE N0 GA).
-  - split.
-    + apply (url_init_rendered T O TOK ht HTNE HTC b4 I4 (port_text T u) (port_back T u) PO h2 DEC N0
-               scheme user pw rest q frag NE Hs Su Sp Fr Fq Sf).
-    + cbn. repeat split; reflexivity.
+  assert (H58 : memN 58 ht = false) by (apply (forallb_not_in_mem _ _ 58 HTC); reflexivity).
+  destruct (roundtrip_gen T O TOK scheme sep user pw fam host port rest q frag ht ht (if b4 then 4 else 0) h2
+              NE Hs N0 Su Sp Sf Fr Fq HTNE (weaken_host_chars ht HTC)) as [R P]; try exact PV.
+  - apply (get_authority_plain T O ht (port_text T u) scheme sep user pw fam host port ([] :: rest) q frag
+             HNE F6 M58 ENC eq_refl).
+  - exists ht. split.
+    + apply (hostport_parse_plain O (port_text T u) (port_back T u) PO ht HTNE H58).
+    + apply (parse_host_plain O ht b4 HTNE H58 I4).
+  - apply (decode_host_plain O ht h2 HTNE DEC).
+  - eexists. eexists. split; [exact R|]. split; [exact P|]. cbn. repeat split; reflexivity.
+Qed.
+
+(* IPv6 hosts: rendered in brackets whenever the host contains ':' (or the family says so) *)
+Theorem roundtrip_v6 T O :
+  tables_ok T = true ->
+  forall scheme sep user pw fam host port rest q frag h2,
+  let nfc := o_nfc O in
+  let u := mkU scheme sep user pw fam host port ([] :: rest) q frag in
+  scheme <> [] -> forallb (not_in [58; 47; 63; 35]) scheme = true ->
+  nfc [] = [] ->
+  all_scalar (nfc user) = true -> all_scalar (nfc pw) = true -> all_scalar (nfc frag) = true ->
+  Forall (fun s => all_scalar (nfc s) = true) rest ->
+  Forall (pair_ok O) q ->
+  (* host: an address with a ':' and none of ] @ / ? #, which inet_pton(AF_INET6) accepts *)
+  memN 58 host = true -> forallb (not_in [93; 64; 47; 63; 35]) host = true ->
+  o_inet6 O host = MOk V6Ok -> decode_host O host = MOk h2 ->
+  match port with Some p => (0 <= p < 65536)%Z | None => True end ->
+  exists full u',
+    to_text T O true u = MOk full /\ url_init T O full = MOk u' /\
+    u_user u' = nfc user /\ u_pass u' = nfc pw /\ u_path u' = map nfc ([] :: rest) /\
+    u_query u' = map (fun kv => (nfc (fst kv), option_map nfc (snd kv))) q /\ u_frag u' = nfc frag /\
+    u_scheme u' = scheme /\ u_family u' = 6 /\ u_host u' = h2 /\ u_port u' = port_back T u.
+Proof.
+  intros TOK scheme sep user pw fam host port rest q frag h2 nfc u
+         NE Hs N0 Su Sp Sf Fr Fq H58 HC I6 DEC PV.
+  pose proof (port_text_ok T u PV) as PO.
+  assert (HNE : host <> []) by (destruct host; [discriminate|discriminate]).
+  assert (H93 : memN 93 host = false) by (apply (forallb_not_in_mem _ _ 93 HC); reflexivity).
+  set (ht := [91] ++ host ++ [93]).
+  assert (HTNE : ht <> []) by discriminate.
+  assert (HTC : forallb (not_in [64; 47; 63; 35]) ht = true).
+  { unfold ht. rewrite !forallb_app. cbn [forallb]. rewrite !andb_true_r. cbn [andb].
+    apply (forallb_weaken [93; 64; 47; 63; 35]); [|exact HC].
+    intros c Hc. cbn [memN] in *. rewrite Hc. apply orb_true_r. }
+  destruct (roundtrip_gen T O TOK scheme sep user pw fam host port rest q frag ht host 6 h2
+              NE Hs N0 Su Sp Sf Fr Fq HTNE HTC) as [R P]; try exact PV.
+  - apply (get_authority_v6 T O ht (port_text T u) scheme sep user pw fam host port ([] :: rest) q frag HNE);
+      [rewrite H58; apply orb_true_r|reflexivity|reflexivity].
+  - exists (91 :: host ++ [93]). split.
+    + apply (hostport_parse_v6 O (port_text T u) (port_back T u) PO host H58 H93).
+    + apply (parse_host_v6 O host H58 I6).
+  - exact DEC.
+  - eexists. eexists. split; [exact R|]. split; [exact P|]. cbn. repeat split; reflexivity.
+Qed.
+
+Lemma port_text_back T u1 u2 :
+  u_scheme u2 = u_scheme u1 -> u_port u2 = port_back T u1 -> port_text T u2 = port_text T u1.
+Proof.
+  intros ES EP. unfold port_back in EP. unfold port_text in *. unfold default_port in *. rewrite ES.
+  destruct (u_port u1) as [p|] eqn:P1.
+  - destruct (negb (p =? 0)%Z && negb (optZ_eqb (Some p) _)) eqn:C.
+    + rewrite EP, C. reflexivity.
+    + rewrite EP. reflexivity.
+  - rewrite EP. reflexivity.
+Qed.
+
+(* render o parse o render = render (full quoting), generic in the host form: it suffices that the
+   re-parsed URL writes its host the same way (GA1) *)
+Theorem fixpoint_full_gen T O :
+  tables_ok T = true ->
+  forall scheme sep user pw fam host port rest q frag ht hp fam' h2,
+  let nfc := o_nfc O in
+  let u := mkU scheme sep user pw fam host port ([] :: rest) q frag in
+  let u1 := mkU scheme true (nfc user) (nfc pw) fam' h2 (port_back T u)
+                ([] :: map nfc rest) (map (nfc_pair O) q) (nfc frag) in
+  scheme <> [] -> forallb (not_in [58; 47; 63; 35]) scheme = true ->
+  nfc [] = [] -> (forall x, nfc (nfc x) = nfc x) -> (forall x, nfc x = [] -> x = []) ->
+  all_scalar (nfc user) = true -> all_scalar (nfc pw) = true -> all_scalar (nfc frag) = true ->
+  Forall (fun s => all_scalar (nfc s) = true) rest ->
+  Forall (pair_ok O) q ->
+  ht <> [] -> forallb (not_in [64; 47; 63; 35]) ht = true ->
+  get_authority T O true u = MOk (authority T O ht (port_text T u) user pw) ->
+  (exists hraw, split_hostport O (ht ++ port_text T u) = MOk (hraw, port_back T u) /\
+                parse_host O hraw = MOk (fam', hp)) ->
+  decode_host O hp = MOk h2 ->
+  get_authority T O true u1 = MOk (authority T O ht (port_text T u) (nfc user) (nfc pw)) ->
+  match port with Some p => (0 <= p < 65536)%Z | None => True end ->
+  forall full u', to_text T O true u = MOk full -> url_init T O full = MOk u' ->
+  to_text T O true u' = MOk full.
+Proof.
+  intros TOK scheme sep user pw fam host port rest q frag ht hp fam' h2 nfc u u1
+         NE Hs N0 IDEM NN Su Sp Sf Fr Fq HTNE HTC GA HP DEC GA1 PV full u' R P.
+  destruct (roundtrip_gen T O TOK scheme sep user pw fam host port rest q frag ht hp fam' h2
+              NE Hs N0 Su Sp Sf Fr Fq HTNE HTC GA HP DEC PV) as [R0 P0].
+  pose proof (eq_trans (eq_sym R0) R) as EF. inversion EF as [EF']. subst full. clear EF R.
+  pose proof (eq_trans (eq_sym P0) P) as EU. inversion EU as [EU']. clear EU P.
+  pose proof (to_text_rendered T O ht HTNE (port_text T u) scheme true (nfc user) (nfc pw)
+                fam' h2 (port_back T u) (map nfc rest) (map (nfc_pair O) q) (nfc frag) NE N0 GA1) as R1.
+  cbn [map]. fold nfc. rewrite N0. refine (eq_trans R1 _). f_equal.
+  apply (rendered_nfc T O ht (port_text T u) N0 IDEM NN).
+Qed.
+
+Theorem fixpoint_full_class T O :
+  tables_ok T = true ->
+  forall scheme sep user pw fam host port rest q frag ht b4 h2,
+  let nfc := o_nfc O in
+  let u := mkU scheme sep user pw fam host port ([] :: rest) q frag in
+  scheme <> [] -> forallb (not_in [58; 47; 63; 35]) scheme = true ->
+  nfc [] = [] -> (forall x, nfc (nfc x) = nfc x) -> (forall x, nfc x = [] -> x = []) ->
+  all_scalar (nfc user) = true -> all_scalar (nfc pw) = true -> all_scalar (nfc frag) = true ->
+  Forall (fun s => all_scalar (nfc s) = true) rest ->
+  Forall (pair_ok O) q ->
+  host <> [] -> (fam =? 6) = false -> memN 58 host = false -> o_idna_enc O host = MOk ht ->
+  ht <> [] -> forallb (not_in [58; 64; 47; 63; 35]) ht = true -> o_inet4 O ht = MOk b4 ->
+  (if all_ascii ht then o_idna_dec O ht = MOk h2 else h2 = ht) ->
+  (* the decoded host encodes to the same text again (IDNA round trip) *)
+  h2 <> [] -> memN 58 h2 = false -> o_idna_enc O h2 = MOk ht ->
+  match port with Some p => (0 <= p < 65536)%Z | None => True end ->
+  forall full u', to_text T O true u = MOk full -> url_init T O full = MOk u' ->
+  to_text T O true u' = MOk full.
+Proof.
+  intros TOK scheme sep user pw fam host port rest q frag ht b4 h2 nfc u
+         NE Hs N0 IDEM NN Su Sp Sf Fr Fq HNE F6 M58 ENC HTNE HTC I4 DEC H2NE H2M ENC2 PV.
+  pose proof (port_text_ok T u PV) as PO.
+  assert (H58 : memN 58 ht = false) by (apply (forallb_not_in_mem _ _ 58 HTC); reflexivity).
+  apply (fixpoint_full_gen T O TOK scheme sep user pw fam host port rest q frag ht ht (if b4 then 4 else 0) h2
+           NE Hs N0 IDEM NN Su Sp Sf Fr Fq HTNE (weaken_host_chars ht HTC)); try exact PV.
+  - apply (get_authority_plain T O ht (port_text T u) scheme sep user pw fam host port ([] :: rest) q frag
+             HNE F6 M58 ENC eq_refl).
+  - exists ht. split.
+    + apply (hostport_parse_plain O (port_text T u) (port_back T u) PO ht HTNE H58).
+    + apply (parse_host_plain O ht b4 HTNE H58 I4).
+  - apply (decode_host_plain O ht h2 HTNE DEC).
+  - apply (get_authority_plain T O ht (port_text T u) scheme true (nfc user) (nfc pw) (if b4 then 4 else 0) h2
+             (port_back T u) ([] :: map nfc rest) (map (nfc_pair O) q) (nfc frag) H2NE); try assumption.
+    + destruct b4; reflexivity.
+    + apply port_text_back; reflexivity.
+Qed.
+
+Theorem fixpoint_full_v6 T O :
+  tables_ok T = true ->
+  forall scheme sep user pw fam host port rest q frag,
+  let nfc := o_nfc O in
+  let u := mkU scheme sep user pw fam host port ([] :: rest) q frag in
+  scheme <> [] -> forallb (not_in [58; 47; 63; 35]) scheme = true ->
+  nfc [] = [] -> (forall x, nfc (nfc x) = nfc x) -> (forall x, nfc x = [] -> x = []) ->
+  all_scalar (nfc user) = true -> all_scalar (nfc pw) = true -> all_scalar (nfc frag) = true ->
+  Forall (fun s => all_scalar (nfc s) = true) rest ->
+  Forall (pair_ok O) q ->
+  memN 58 host = true -> forallb (not_in [93; 64; 47; 63; 35]) host = true ->
+  o_inet6 O host = MOk V6Ok -> decode_host O host = MOk host ->
+  match port with Some p => (0 <= p < 65536)%Z | None => True end ->
+  forall full u', to_text T O true u = MOk full -> url_init T O full = MOk u' ->
+  to_text T O true u' = MOk full.
+Proof.
+  intros TOK scheme sep user pw fam host port rest q frag nfc u
+         NE Hs N0 IDEM NN Su Sp Sf Fr Fq H58 HC I6 DEC PV.
+  pose proof (port_text_ok T u PV) as PO.
+  assert (HNE : host <> []) by (destruct host; [discriminate|discriminate]).
+  assert (H93 : memN 93 host = false) by (apply (forallb_not_in_mem _ _ 93 HC); reflexivity).
+  set (ht := [91] ++ host ++ [93]).
+  assert (HTNE : ht <> []) by discriminate.
+  assert (HTC : forallb (not_in [64; 47; 63; 35]) ht = true).
+  { unfold ht. rewrite !forallb_app. cbn [forallb]. rewrite !andb_true_r. cbn [andb].
+    apply (forallb_weaken [93; 64; 47; 63; 35]); [|exact HC].
+    intros c Hc. cbn [memN] in *. rewrite Hc. apply orb_true_r. }
+  apply (fixpoint_full_gen T O TOK scheme sep user pw fam host port rest q frag ht host 6 host
+           NE Hs N0 IDEM NN Su Sp Sf Fr Fq HTNE HTC); try exact PV.
+  - apply (get_authority_v6 T O ht (port_text T u) scheme sep user pw fam host port ([] :: rest) q frag HNE);
+      [rewrite H58; apply orb_true_r|reflexivity|reflexivity].
+  - exists (91 :: host ++ [93]). split.
+    + apply (hostport_parse_v6 O (port_text T u) (port_back T u) PO host H58 H93).
+    + apply (parse_host_v6 O host H58 I6).
+  - exact DEC.
+  - apply (get_authority_v6 T O ht (port_text T u) scheme true (nfc user) (nfc pw) 6 host
+             (port_back T u) ([] :: map nfc rest) (map (nfc_pair O) q) (nfc frag) HNE);
+      [reflexivity|reflexivity|apply port_text_back; reflexivity].
 Qed.
